@@ -149,8 +149,16 @@ pub fn on_fresh_thread<T: Send + 'static>(
     hash_seed: u64,
     f: impl FnOnce() -> T + Send + 'static,
 ) -> ThreadOutcome<T> {
+    on_fresh_thread_with_stack(hash_seed, 256, f)
+}
+
+pub fn on_fresh_thread_with_stack<T: Send + 'static>(
+    hash_seed: u64,
+    stack_mb: usize,
+    f: impl FnOnce() -> T + Send + 'static,
+) -> ThreadOutcome<T> {
     let handle = std::thread::Builder::new()
-        .stack_size(256 << 20)
+        .stack_size(stack_mb << 20)
         .spawn(move || {
             set_hash_seed(hash_seed);
             let r = std::panic::catch_unwind(std::panic::AssertUnwindSafe(f));
